@@ -5,7 +5,7 @@
    trees to the characters of the file.  C01's files are imported read-only. *)
 From Coq Require Import List NArith ZArith Bool String Ascii Lia Reals.
 From T4V Require C01.Model C01.Spec C01.ProofsT4 C01.ProofsCells C01.ProofsWritten.
-From T4V Require Import C08.LinkC01a.
+From T4V Require Import C08.LinkC01a C08.LinkC01b.
 From T4V Require Import Base.Str Base.Scalar C08.Model C08.Spec C08.ProofsSets C08.ProofsPrune C08.ProofsTail
      C08.SurfEq C08.Parse C08.ProofsGiven C08.ProofsEnd.
 Import ListNotations.
@@ -105,6 +105,55 @@ Proof.
   destruct (c01_table_refs _ _ _ _ _ _ _ _ Hrun) as [Hnd Hops]. rewrite <- Hv in *.
   apply (convert_tail_text_wf Req_payload Req_payload_sym Req_payload_trans); [|assumption].
   constructor; try assumption. constructor; assumption.
+Qed.
+
+(* the surface numbers too: they are TRIPOLI-4 numbers of `matching` (number_items) or the
+   helper planes (C08/LinkC01b.v), so "entries of the surface dictionary" is asked of
+   `matching` only *)
+Theorem c01_table_surfs fuel cells matching u0 u1 todo cnt0 s' (allowed : list Z) :
+  (forall key ids, M1.lookup key matching = Some ids -> Forall (fun x => In (Z.abs x) allowed) ids) ->
+  (0 < u0)%Z -> (0 < u1)%Z -> In u0 allowed -> In u1 allowed ->
+  M1.convert_cells fuel cells matching u0 u1 todo (M1.mkSt cnt0 [] [] []) = M1.Ok s' ->
+  forall k v s, In (k, v) (tr_table (M1.vols s')) -> In s (surface_ids v) -> In s allowed.
+Proof.
+  intros Hm H0 H1 I0 I1 H k v s Hin Hs.
+  pose proof (T4V.C01.ProofsWritten.convert_cells_keys _ _ _ _ _ _ _ _ H) as Hnd.
+  destruct (tr_In _ _ _ Hin) as [v1 [Hin1 ->]].
+  pose proof (m1_lookup_In k v1 _ Hnd Hin1) as Hl.
+  eapply (convert_cells_surfs allowed matching Hm u0 u1 H0 H1 I0 I1 _ _ _ _ _ H); eassumption.
+Qed.
+
+Record stage0_rest2 (u0 u1 : Z) (matching : M1.dict (list Z)) (w : wstate (spayload R)) : Prop := mk_stage0_rest2 {
+  s2_matching : forall key ids, M1.lookup key matching = Some ids ->
+                Forall (fun x => In (Z.abs x) (keys (w_surfs w))) ids;
+  s2_pos : (0 < u0)%Z /\ (0 < u1)%Z;
+  s2_helpers : helpers_ok Req_payload (w_surfs w) u0 u1;
+  s2_nonempty : w_vols w <> [];
+  s2_skipped : forall k, In k (w_skipped w) -> ~ In k (keys (w_vols w));
+  s2_cells : forall k v, In (k, v) (w_vols w) -> v_fictive v = false ->
+             exists c, lookup (vol_cell_id k v) (w_cells w) = Some c /\ cell_named w c;
+  s2_norm : forall cid c, In (cid, c) (w_cells w) -> norm_fixed c;
+  s2_words : words_ok w }.
+
+Theorem convert_wf_linked_surfaces :
+  forall fuel cells matching u0 u1 todo cnt0 s' skip_dedup (w : wstate (spayload R)),
+  M1.convert_cells fuel cells matching u0 u1 todo (M1.mkSt cnt0 [] [] []) = M1.Ok s' ->
+  w_vols w = tr_table (M1.vols s') ->
+  stage0_rest2 u0 u1 matching w ->
+  exists o, convert_tail Req_payload skip_dedup u0 u1 w = Ok o /\
+    (o = Died false [] EValue \/
+     exists f, (o = Complete f \/ exists e, o = Raised f e) /\
+               wf_file f /\ parse_t4 (print_t4 f) = Some f /\
+               forall finite : string -> Prop,
+                 Forall finite (state_numbers w) -> Forall finite (file_numbers f)).
+Proof.
+  intros fuel cells matching u0 u1 todo cnt0 s' skip_dedup w Hrun Hv [Hm [P0 P1] Hh Hne Hsk Hc Hn Hw].
+  apply (convert_wf_linked fuel cells matching u0 u1 todo cnt0 s' skip_dedup w Hrun Hv).
+  constructor; try assumption.
+  destruct Hh as [_ [s0 [s1 [A [B _]]]] _].
+  intros k v s Hin Hs. rewrite Hv in Hin.
+  eapply (c01_table_surfs fuel cells matching u0 u1 todo cnt0 s' (keys (w_surfs w)) Hm P0 P1);
+    try eassumption; eapply in_keys; eassumption.
 Qed.
 
 (* ---- non-vacuity: C01's example deck (five cells, a union, a cell reference) run through
